@@ -1,4 +1,5 @@
 import BHS.Props.C04
+import BHS.Props.SqlShape
 open BHS.Props.C04
 #print axioms C04_anc_iff_chainTo
 #print axioms C04_byhash
@@ -16,3 +17,4 @@ open BHS.Props.C04
 #print axioms C04_common_partial
 #print axioms C04_common_counterexample
 #print axioms C04_reads_pure
+#print axioms BHS.Props.SqlShape.query_statements
